@@ -32,14 +32,15 @@ type MemoWork struct {
 	CleanNs int64     `json:"cleanup_ns"`
 	Keys    int       `json:"keys"`
 	Tasks   [][]MCall `json:"tasks"`
-	Beh     [][]MBeh  `json:"beh"`  // Beh[key][k]: behaviour of the k-th execution for that key (cycled)
-	Held    int       `json:"held"` // >=0: every execution for this key parks on a latch that opens only after all callers of the other keys have returned (key independence); -1: none
+	Beh     [][]MBeh  `json:"beh"`                // Beh[key][k]: behaviour of the k-th execution for that key (cycled)
+	Held    int       `json:"held"`               // >=0: every execution for this key parks on a latch that opens only after all callers of the other keys have returned (key independence); -1: none
+	KeyKind int       `json:"key_kind,omitempty"` // 0: string keys "key<i>"; 1: a named ~string key type whose String() masks the key (all keys print alike); 2: string keys that differ only in case / trailing blank
 }
 
 func (w *MemoWork) Sim() SimSpec { return w.P }
 
 func (w *MemoWork) Key() string {
-	return fmt.Sprintf("c17/%d/%d/%d/%v/%v/%d/tf=%v", w.ExpNs, w.CleanNs, w.Keys, w.Tasks, w.Beh, w.Held, w.P.TimeFaults)
+	return fmt.Sprintf("c17/%d/%d/%d/%v/%v/%d/tf=%v/kk=%d", w.ExpNs, w.CleanNs, w.Keys, w.Tasks, w.Beh, w.Held, w.P.TimeFaults, w.KeyKind)
 }
 
 func (w *MemoWork) ShapeName() string {
@@ -144,6 +145,16 @@ func snapshotMCalls(recs [][]mcallRec) []mcallRec {
 
 func mkey(i int) string { return fmt.Sprintf("key%d", i) }
 
+// maskedKey is a caller-defined key type of the kind Memoizer's type parameter (T ~string)
+// invites: a credential-like key whose printed form hides its content, so all keys print alike.
+// Distinct keys are still distinct keys.
+type maskedKey string
+
+func (maskedKey) String() string   { return "key-***" }
+func (maskedKey) GoString() string { return "maskedKey(***)" }
+
+var nearKeys = []string{"Key", "key", "key ", " key", "KEY", "kEy", "key\t", "keY"}
+
 func (w *MemoWork) Exec(x *Exec) {
 	// items the callback hands out: one per possible execution, value 1000+id, created up front
 	factory := cache.New[string, int](cache.NoExpiration, 0)
@@ -152,7 +163,24 @@ func (w *MemoWork) Exec(x *Exec) {
 		factory.Update("i", 1000+i, cache.NoExpiration)
 		items[i], _ = factory.Get("i")
 	}
-	m := gogu.NewMemoizer[string, int](time.Duration(w.ExpNs), time.Duration(w.CleanNs))
+	var memoize func(key int, fn func() (*cache.Item[int], error)) (*cache.Item[int], error)
+	switch w.KeyKind {
+	case 1:
+		m := gogu.NewMemoizer[maskedKey, int](time.Duration(w.ExpNs), time.Duration(w.CleanNs))
+		memoize = func(key int, fn func() (*cache.Item[int], error)) (*cache.Item[int], error) {
+			return m.Memoize(maskedKey(mkey(key)), fn)
+		}
+	case 2:
+		m := gogu.NewMemoizer[string, int](time.Duration(w.ExpNs), time.Duration(w.CleanNs))
+		memoize = func(key int, fn func() (*cache.Item[int], error)) (*cache.Item[int], error) {
+			return m.Memoize(nearKeys[key%len(nearKeys)], fn)
+		}
+	default:
+		m := gogu.NewMemoizer[string, int](time.Duration(w.ExpNs), time.Duration(w.CleanNs))
+		memoize = func(key int, fn func() (*cache.Item[int], error)) (*cache.Item[int], error) {
+			return m.Memoize(mkey(key), fn)
+		}
+	}
 	sh := &memoShared{}
 	var latch simrt.Latch
 	var others simrt.CountLatch
@@ -203,7 +231,7 @@ func (w *MemoWork) Exec(x *Exec) {
 							r.Panic = fmt.Sprint(p)
 						}
 					}()
-					it, err := m.Memoize(mkey(key), fn)
+					it, err := memoize(key, fn)
 					if it != nil {
 						r.Val = it.Val()
 					}
@@ -454,6 +482,9 @@ func genC17(r *simrt.Rand, tier string, idx uint64) Workload {
 	if w.Keys >= 2 && r.Bool(0.2) {
 		w.Held = r.Intn(w.Keys)
 	}
+	// the key type and spelling are the caller's choice: mostly plain strings, sometimes a named
+	// ~string type whose printed form masks the key, sometimes keys differing only in case/blanks
+	w.KeyKind = []int{0, 0, 0, 0, 1, 1, 2, 0}[r.Intn(8)]
 	// call instants: same instant, staggered inside/outside the callback latency, around the expiry instant
 	instants := []int64{0, 0, 0, 1, 2 * ms, 5 * ms, 5*ms + 1, 29 * ms, 30 * ms, 31 * ms, w.ExpNs - 1, w.ExpNs, w.ExpNs + 1, w.ExpNs + 5*ms, w.ExpNs + 30*ms, 2 * w.ExpNs}
 	for t := 0; t < nt; t++ {
